@@ -103,6 +103,18 @@ class World:
                             w = par._wires.get(nm(BUNDLE * (a + 1) + i))
                             if w is not None and id(w) not in known:
                                 self.wires.append(w); known.add(id(w))
+                elif k in ('AddIfaceSource', 'AddIfaceSink'):      # obj.addInterfaceSource / addInterfaceSink(name, interface)
+                    _, o, pre, s2s, k2s = op
+                    import types
+                    sig = (lambda g: str(g)) if pre is not None else (lambda g: nm(g))      # so that the port name is nm(port_name pre g) (Model/BuildIface.v)
+                    iface = types.SimpleNamespace(sourceToSink=[(sig(g), self.wires[w]) for g, w in s2s], sinkToSource=[(sig(g), self.wires[w]) for g, w in k2s])
+                    obj = self.objs[o]
+                    n_out, n_in = len(obj.outPorts), len(obj.inPorts)
+                    try:
+                        getattr(obj, 'addInterfaceSource' if k == 'AddIfaceSource' else 'addInterfaceSink')('' if pre is None else nm(pre), iface)
+                    finally:                              # also after a failure: the ports that exist now, in creation order (source: outs then ins; sink: ins then outs)
+                        new_out, new_in = obj.outPorts[n_out:], obj.inPorts[n_in:]
+                        for q in (new_out + new_in if k == 'AddIfaceSource' else new_in + new_out): self.ports.append(q)
                 elif k in ('AddIn', 'AddOut', 'AddInOut'):
                     _, o, n, w = op
                     obj = self.objs[o]
@@ -176,6 +188,38 @@ def zl(xs): return '[' + '; '.join(common.zlit(x) for x in xs) + ']'
 def dump_term(d):
     return '[' + '; '.join('[' + '; '.join('[' + '; '.join(zl(r) for r in e) + ']' for e in part) + ']' for part in d) + ']'
 def nat(n): return '%d%%nat' % n
+def iop_term(op):
+    """term of Model/BuildIface.v `iop`"""
+    if op[0] in ('AddIfaceSource', 'AddIfaceSink'):
+        _, o, pre, s2s, k2s = op
+        pl = lambda l: '[' + '; '.join('(%s, %s)' % (common.zlit(g), nat(w)) for g, w in l) + ']'
+        return '(%s %s %s (mkIface %s %s))' % (op[0], nat(o), 'None' if pre is None else '(Some %s)' % common.zlit(pre), pl(s2s), pl(k2s))
+    return '(Prim %s)' % op_term(op)
+
+
+def iface_run(rng, n_ops):
+    """a random construction sequence with interface calls (sources and sinks on primitive and structural blocks, wires shared between interfaces
+    so that second sources / driven wires occur, with and without a name prefix).  returns (world, ops, record)"""
+    W = World(); ops, rec = [], []
+    def do(op):
+        r, txt = W.apply(op); ops.append(op); rec.append((r, W.dump(), txt)); return r
+    do(('NewLogic', None, 0, False))
+    for j in range(3): do(('NewLogic', 0, 1 + j, j != 1, j))
+    for j in range(4): do(('NewWire', 0, 10 + j, rng.choice([1, 8])))
+    while len(ops) < n_ops:
+        x = rng.random(); no, nw = len(W.objs), len(W.wires)
+        if x < 0.12: do(('NewWire', rng.randrange(no), rng.randrange(20, 30), rng.choice([1, 4])))
+        elif x < 0.2: do(('NewLogic', rng.randrange(no), rng.randrange(5, 12), rng.random() < 0.6, rng.randrange(30)))
+        elif x < 0.35: do((rng.choice(['AddIn', 'AddOut']), rng.randrange(no), rng.randrange(4), rng.randrange(nw)))
+        else:
+            k = rng.choice(['AddIfaceSource', 'AddIfaceSource', 'AddIfaceSink'])
+            ns, nk = rng.randint(0, 3), rng.randint(0, 2)
+            sigs = rng.sample(range(0, 9), ns + nk)
+            s2s = [(sigs[i], rng.randrange(nw)) for i in range(ns)]; k2s = [(sigs[ns + i], rng.randrange(nw)) for i in range(nk)]
+            do((k, rng.randrange(no), rng.choice([None, None, 3, 5]), s2s, k2s))
+    return W, ops, rec
+
+
 def op_term(op):
     k = op[0]
     if k == 'NewLogic':
